@@ -1,5 +1,5 @@
 SPECIFICATION Spec
-CONSTANT Rounds = 1
+CONSTANT Rounds = 2
 INVARIANT NoForwardWhenNegInf
 INVARIANT AtMostOneForward
 INVARIANT FiniteNeedsEverything
